@@ -63,14 +63,14 @@ def make_step(rnd, vd, ncomp, depth=0):
         dm = rnd.choice([1e-3, 1e-1, 1.0])
         return "Spline(damping=%g)" % dm, vd.Spline(damping=dm, mindist=rnd.choice([0.1, 1.0])), True
     if k == "knn":
-        kk = rnd.randint(1, 3)
+        kk = rnd.randint(1, 2)   # never more neighbours than points can remain after a block reduction
         return "KNeighbors(%d)" % kk, vd.KNeighbors(k=kk), True
     if k == "reduce":
         red = rnd.choice([wavg, wmax])
-        sp = rnd.choice([1.5, 2.5])
+        sp = rnd.choice([1.5, 1.2])
         return "BlockReduce(%s,%g)" % (red.__name__, sp), vd.BlockReduce(red, spacing=sp), False
     if k == "blockmean":
-        sp = rnd.choice([1.5, 2.5])
+        sp = rnd.choice([1.5, 1.2])
         return "BlockMean(%g)" % sp, vd.BlockMean(spacing=sp), False
     if k == "vector":
         subs = [make_step(rnd, vd, 1, depth=1) for _ in range(ncomp)]
@@ -93,7 +93,7 @@ def make_step_gridder(rnd, vd, ncomp):
 
 
 def make_data(rnd, ncomp, weighted):
-    n = rnd.randint(8, 30)
+    n = rnd.randint(12, 30)
     rs = np.random.RandomState(rnd.randint(0, 2 ** 31 - 1))
     e = rs.uniform(0, 6, n)
     no = rs.uniform(-3, 3, n)
@@ -116,7 +116,17 @@ def chain_case(rnd, vd, kind, nsteps=None, all_gridders=False):
         s = make_step_gridder(rnd, vd, ncomp) if all_gridders else make_step(rnd, vd, ncomp)
         steps.append(s)
     names = [s[0] for s in steps]
-    chain = vd.Chain([("s%d" % i, s[1]) for i, s in enumerate(steps)])
+    # step labels: unique, or deliberately repeated (the steps are a LIST of pairs; nothing requires unique names)
+    labels = ["s%d" % i for i in range(len(steps))]
+    if len(steps) >= 2 and rnd.random() < 0.35:
+        labels = [rnd.choice(["a", "b"]) for _ in steps]
+    chain = vd.Chain(list(zip(labels, [s[1] for s in steps])))
+    if ncomp == 1 and rnd.random() < 0.4 and len(coords[0]) % 2 == 0:
+        # gridded (2-D) inputs in assorted memory layouts: nothing may depend on the layout
+        n2 = len(coords[0]) // 2
+        coords = tuple(core.relayout(c.reshape(2, n2), rnd) for c in coords)
+        data = core.relayout(np.asarray(data).reshape(2, n2), rnd)
+        weights = None if weights is None else core.relayout(np.asarray(weights).reshape(2, n2), rnd)
     with warnings.catch_warnings():
         warnings.simplefilter("ignore")
         # oracle: stand-alone clones on the threaded arguments
@@ -159,7 +169,8 @@ def chain_case(rnd, vd, kind, nsteps=None, all_gridders=False):
         cbool(t["g"]), cc(t["pq"]), cc(t["pc"]), cc(t["fdata"]), cc(t["rq"]), cbool(t["same"])) for t in tables])
     cobs = "None" if obs_q is None else "(Some %s)" % cc(obs_q)
     term = "c06_chain %s %s %s %s" % (cc(comps(data)), csteps, cobs, cc(obs_c))
-    return Case({"steps": names, "n_points": len(coords[0]), "components": ncomp, "weighted": weighted},
+    return Case({"steps": names, "labels": labels, "n_points": int(np.size(coords[0])), "data_shape": list(np.shape(data if ncomp == 1 else data[0])),
+                 "components": ncomp, "weighted": weighted},
                 {"chain_prediction_at_query": obs_q}, term,
                 "# Chain(%s) fitted on %d random points; see harness/c06.py chain_case" % (names, len(coords[0])),
                 kind, nontrivial=nsteps >= 2)
@@ -171,9 +182,9 @@ def filter_case(rnd, vd, kind):
     coords, data, weights, q = make_data(rnd, ncomp, rnd.random() < 0.5)
     if shape2d and len(data) % 2 == 0:
         n = len(data)
-        coords = tuple(c.reshape(2, n // 2) for c in coords)
-        data = data.reshape(2, n // 2)
-        weights = None if weights is None else weights.reshape(2, n // 2)
+        coords = tuple(core.relayout(c.reshape(2, n // 2), rnd) for c in coords)
+        data = core.relayout(data.reshape(2, n // 2), rnd)
+        weights = None if weights is None else core.relayout(weights.reshape(2, n // 2), rnd)
     name, est, _ = make_step_gridder(rnd, vd, 1)
     with warnings.catch_warnings():
         warnings.simplefilter("ignore")
